@@ -6,6 +6,7 @@
 package comp
 
 import (
+	"bytes"
 	"context"
 	"crypto/sha256"
 	"encoding/hex"
@@ -105,6 +106,9 @@ type ModelBackend struct {
 	InstanceAware bool
 	// Plan is consumed one entry per call: "ok" or "fail"; calls beyond it succeed.
 	Plan []string
+	// Stream selects the kind of buffer Get returns: "" = byte slice, "reader" = stream backed by an io.Reader,
+	// "chunks" = stream backed by a ChunkReader (as a gRPC back end or a block under refresh would return)
+	Stream string
 	// Gate, if set, is called at the start of every call (scheduling point).
 	Gate func(label string)
 	// GateCtx, if set, is called for FindMissing with the objects asked about and those present.
@@ -172,7 +176,49 @@ func (b *ModelBackend) Get(ctx context.Context, d digest.Digest) buffer.Buffer {
 	if !ok {
 		return buffer.NewBufferFromError(status.Error(codes.NotFound, "Object not found"))
 	}
-	return buffer.NewCASBufferFromByteSlice(d, b.U.Data(b.U.Name(d)), buffer.BackendProvided(buffer.Irreparable(d)))
+	data := b.U.Data(b.U.Name(d))
+	switch b.Stream {
+	case "reader":
+		return buffer.NewCASBufferFromReader(d, io.NopCloser(bytes.NewReader(data)), buffer.BackendProvided(buffer.Irreparable(d)))
+	case "chunks":
+		return buffer.NewCASBufferFromChunkReader(d, &sliceChunkReader{data: data, n: 3}, buffer.BackendProvided(buffer.Irreparable(d)))
+	}
+	return buffer.NewCASBufferFromByteSlice(d, data, buffer.BackendProvided(buffer.Irreparable(d)))
+}
+
+type sliceChunkReader struct {
+	data []byte
+	n    int
+}
+
+func (r *sliceChunkReader) Read() ([]byte, error) {
+	if len(r.data) == 0 {
+		return nil, io.EOF
+	}
+	n := min(r.n, len(r.data))
+	c := r.data[:n]
+	r.data = r.data[n:]
+	return c, nil
+}
+
+func (r *sliceChunkReader) Close() {}
+
+// Consume reads a buffer to the end in one of several ways (selected by variant) and returns the data.
+func Consume(b buffer.Buffer, variant int) ([]byte, error) {
+	switch variant % 3 {
+	case 1:
+		var w bytes.Buffer
+		err := b.IntoWriter(&w)
+		return w.Bytes(), err
+	case 2:
+		r := b.ToReader()
+		data, err := io.ReadAll(r)
+		if cerr := r.Close(); err == nil {
+			err = cerr
+		}
+		return data, err
+	}
+	return b.ToByteSlice(1 << 20)
 }
 
 func (b *ModelBackend) GetFromComposite(ctx context.Context, parentDigest, childDigest digest.Digest, slicer slicing.BlobSlicer) buffer.Buffer {
